@@ -2,6 +2,8 @@
 //@harness c10_char_boundary_twin strength=complete bound="all 256 byte values (full domain), loop-free" timeout=300 body=body_boundary
 //@harness c10_char_starts unwind=9 strength=bounded bound="buffers of <= 6 arbitrary bytes" timeout=600 body=body_starts
 //@harness c10_maxwidth_write unwind=9 strength=bounded bound="one write of <= 6 arbitrary bytes, any remaining budget, inner writer accepting any prefix or failing" timeout=900 body=body_maxw
+//@harness c10_char_starts_24 unwind=27 strength=bounded bound="buffers of <= 24 arbitrary bytes" timeout=1800 body=body_starts24 tier=thorough
+//@harness c10_maxwidth_write_12 unwind=15 strength=bounded bound="one write of <= 12 arbitrary bytes, any remaining budget, inner writer accepting any prefix or failing" timeout=3000 body=body_maxw12 tier=thorough
 //@harness c10_leftalign_write unwind=9 strength=bounded bound="one write of <= 5 arbitrary bytes, to_fill <= 7, inner writer accepting any prefix" timeout=600 body=body_left
 //@harness c10_rightalign_write unwind=9 strength=bounded bound="two writes of <= 3 bytes with a style change in between, to_fill <= 7" timeout=2400 body=body_right
 //@harness c18_width_writers_forward_style unwind=4 strength=complete bound="any remaining budget / padding owed (full usize domain); loop-free" timeout=600 body=body_style
@@ -38,16 +40,20 @@ mod __verif_c10 {
         __verif_ob!("is_char_boundary#post true iff not a continuation byte", is_char_boundary(b) == ((b & 0xC0) != 0x80));
     }
 
-    pub(crate) fn body_starts(src: &mut Src) {
-        let n = src.u8() as usize; assume(n <= 6);
-        let buf = [src.u8(), src.u8(), src.u8(), src.u8(), src.u8(), src.u8()];
+    fn starts_n<const N: usize>(src: &mut Src) {
+        let n = src.u8() as usize; assume(n <= N);
+        let mut buf = [0u8; N]; let mut i = 0; while i < N { buf[i] = src.u8(); i += 1; }
         __verif_cover!("a 3-byte character", n >= 3 && buf[0] == 0xE2 && buf[1] == 0x82 && buf[2] == 0xAC);
         __verif_ob!("char_starts#post counts the non-continuation bytes", char_starts(&buf[..n]) == leads(&buf[..n]));
     }
+    pub(crate) fn body_starts(src: &mut Src) { starts_n::<6>(src) }
+    pub(crate) fn body_starts24(src: &mut Src) { starts_n::<24>(src) }
 
-    pub(crate) fn body_maxw(src: &mut Src) {
-        let n = src.u8() as usize; assume(n <= 6);
-        let buf = [src.u8(), src.u8(), src.u8(), src.u8(), src.u8(), src.u8()];
+    pub(crate) fn body_maxw(src: &mut Src) { maxw_n::<6>(src) }
+    pub(crate) fn body_maxw12(src: &mut Src) { maxw_n::<12>(src) }
+    fn maxw_n<const N: usize>(src: &mut Src) {
+        let n = src.u8() as usize; assume(n <= N);
+        let mut buf = [0u8; N]; let mut i0 = 0; while i0 < N { buf[i0] = src.u8(); i0 += 1; }
         let rem = src.usize();
         let accept = src.u8() as usize; let fail = src.bool();
         let mut inner = VW::new(accept, fail);
@@ -73,7 +79,7 @@ mod __verif_c10 {
             __verif_ob!("write#post returns what the inner writer accepted", matches!(ret, Ok(x) if x == k));
             __verif_ob!("write#post exactly one inner write", inner.calls == 1);
             __verif_ob!("write#post the inner writer is offered exactly the first `remaining` characters", inner.len == k);
-            let mut j = 0; while j < 6 { if j < k { __verif_ob!("write#post bytes are forwarded unchanged", inner.buf[j] == buf[j]); } j += 1; }
+            let mut j = 0; while j < N { if j < k { __verif_ob!("write#post bytes are forwarded unchanged", inner.buf[j] == buf[j]); } j += 1; }
             __verif_ob!("write#post budget decreases by the characters accepted", left == rem - leads(&buf[..k]));
             __verif_ob!("write#post never cuts inside a character", end == n || lead(buf[end]));
         }
@@ -183,6 +189,8 @@ mod __verif_c10 {
     #[cfg(kani)] #[kani::proof] fn c10_char_boundary_twin() { let mut s = Src::new(); body_boundary(&mut s); }
     #[cfg(kani)] #[kani::proof] #[kani::unwind(9)] fn c10_char_starts() { let mut s = Src::new(); body_starts(&mut s); }
     #[cfg(kani)] #[kani::proof] #[kani::unwind(9)] fn c10_maxwidth_write() { let mut s = Src::new(); body_maxw(&mut s); }
+    #[cfg(kani)] #[kani::proof] #[kani::unwind(27)] fn c10_char_starts_24() { let mut s = Src::new(); body_starts24(&mut s); }
+    #[cfg(kani)] #[kani::proof] #[kani::unwind(15)] fn c10_maxwidth_write_12() { let mut s = Src::new(); body_maxw12(&mut s); }
     #[cfg(kani)] #[kani::proof] #[kani::unwind(9)] fn c10_leftalign_write() { let mut s = Src::new(); body_left(&mut s); }
     #[cfg(kani)] #[kani::proof] #[kani::unwind(9)] fn c10_rightalign_write() { let mut s = Src::new(); body_right(&mut s); }
     #[cfg(kani)] #[kani::proof] #[kani::unwind(4)] fn c18_width_writers_forward_style() { let mut s = Src::new(); body_style(&mut s); }
